@@ -11,7 +11,9 @@ reading the server's answer, or a client blocked on an answer after the serve lo
 exactly and immediately, instead of being masked by pre-buffered input.
 
 Symbolic: the *script* — small ints/bools choosing method shape, fault kind/position, client behaviour
-(k ticks/exchanges, then close or cancel), the position at which the client's ``on_log`` callback raises, and
+(k ticks/exchanges, then close or cancel), the position at which the client's ``on_log`` callback raises, which
+revision of the header dataclass the server's (intact) stream header was built from — the *client-side* header
+fault: the header arrives, the server has accepted the stream, and the client cannot decode it — and
 the follow-up call.  The solver's role is the case split over this finite grid (stated in BOUNDS); every
 path below the split is fully concrete and is executed with CrossHair's tracer switched off (``NoTracing``),
 because tracing the ~10^5 bytecodes of a dispatch costs seconds per path and decides nothing more.
@@ -37,6 +39,7 @@ import contextlib
 import io
 import threading
 from dataclasses import dataclass
+from enum import Enum
 from typing import Any, ClassVar, Protocol
 
 import pyarrow as pa
@@ -63,6 +66,7 @@ ENCODED = [
     wire._read_request,
     wire._write_stream_header,
     wire._read_header_batch,
+    wire._read_stream_header,
     wire._read_unary_response,
     wire._read_batch_with_log_check,
     wire._dispatch_log_or_error,
@@ -83,7 +87,9 @@ BOUNDS = (
     "logs then raises, unknown method, bad request version, protocol-version mismatch/absent, bad parameter "
     "schema, None for a required parameter} x fault position {init, step 1..3} x client {0..%d ticks/exchanges in "
     "lock-step, then close | cancel} x client on_log callback raising at log message {never, 1..4} {once | from then on} x (exchange streams) the client's n-th "
-    "input batch has another schema than the stream {never, 1..k} {other type | other column | other nullability} {gives up | carries on}; one such call "
+    "input batch has another schema than the stream {never, 1..k} {other type | other column | other nullability} {gives up | carries on}; (header-declaring producer/exchange) the header on the wire built from "
+    "another revision of the client's header dataclass {same | extra field | required field absent | unknown Enum member | int for Enum | nested "
+    "pa.Schema / pa.RecordBatch payload bytes well formed | no schema message | cut short | without a batch}; one such call "
     "followed by one well-formed call {unary | producer stream}; producer yields %d items; unbounded channel buffers"
     % (_K, _TOTAL)
 )
@@ -105,8 +111,9 @@ ASSUMPTIONS = [
 # ---------------------------------------------------------------------------
 
 # method shapes
-UNARY, PROD, PROD_H, EXCH = 0, 1, 2, 3
-_SHAPE_NAME = {UNARY: "flaky", PROD: "prod", PROD_H: "prod_h", EXCH: "exch"}
+UNARY, PROD, PROD_H, EXCH, PROD_HX, EXCH_HX = 0, 1, 2, 3, 4, 5
+_SHAPE_NAME = {UNARY: "flaky", PROD: "prod", PROD_H: "prod_h", EXCH: "exch", PROD_HX: "prod_hx", EXCH_HX: "exch_hx"}
+_EXCHANGES = (EXCH, EXCH_HX)
 # fault kinds
 NONE, RAISES, NON_STREAM, HEADER_NONE, STEP_RAISE, STEP_LOG_RAISE, UNKNOWN_METHOD, BAD_REQ_VERSION, PROTO_MISMATCH, PROTO_ABSENT, BAD_SCHEMA, NONE_PARAM, RETURNS_NONE = range(13)
 _KIND_NAME = {
@@ -134,11 +141,14 @@ class Script:
     bad_at: int = 0  # exchange streams: the client's n-th exchange() passes a batch of another schema (0: never)
     bad_kind: int = 0  # 0: same column, other type; 1: other column name; 2: same column, nullability differs
     bad_retry: bool = False  # True: the client swallows that exchange's error and goes on exchanging
+    drift: int = 0  # prod_hx / exch_hx: which revision of the header dataclass the server answers with (index into _DRIFT)
 
     def describe(self) -> str:
         s = f"{_SHAPE_NAME[self.shape]} / {_KIND_NAME[self.kind]}" + (f" at step {self.pos}" if self.pos else "")
         if self.shape != UNARY:
             s += f", client: {self.k} tick(s) then {'cancel' if self.cancel else 'close'}"
+        if self.drift:
+            s += f", header on the wire: {_DRIFT[self.drift][0]}"
         if self.bad_at:
             s += f", exchange {self.bad_at} passes a batch of another schema ({_BAD_NAME[self.bad_kind]})" + (", client carries on after the error" if self.bad_retry else "")
         if self.log_at:
@@ -165,6 +175,84 @@ class Hdr(ArrowSerializableDataclass):
 
 
 _OUT = pa.schema([pa.field("v", pa.int64())])
+
+
+# --- header drift: the client declares HdrX; the server answers with a header built from another revision of that
+# dataclass (an older/newer deployment, or a server in another language).  The header stream itself is well formed and
+# reaches the client intact; whether the client's ``HdrX.deserialize_from_batch`` accepts it is up to the real code.
+class Mode(Enum):
+    A = "a"
+    B = "b"
+
+
+class _ModeNext(Enum):  # the server's revision of Mode knows one more member
+    A = "a"
+    B = "b"
+    C = "c"
+
+
+@dataclass(frozen=True)
+class HdrX(ArrowSerializableDataclass):
+    n: int
+    mode: Mode
+    layout: pa.Schema | None = None
+    sample: pa.RecordBatch | None = None
+
+
+@dataclass(frozen=True)
+class _HdrRegion(ArrowSerializableDataclass):  # one field more than the client knows, the optional ones absent
+    n: int
+    mode: Mode
+    region: str
+
+
+@dataclass(frozen=True)
+class _HdrNoMode(ArrowSerializableDataclass):  # revision before ``mode`` was added
+    n: int
+
+
+@dataclass(frozen=True)
+class _HdrNextMode(ArrowSerializableDataclass):
+    n: int
+    mode: _ModeNext
+
+
+@dataclass(frozen=True)
+class _HdrModeInt(ArrowSerializableDataclass):  # revision that numbered the modes
+    n: int
+    mode: int
+
+
+@dataclass(frozen=True)
+class _HdrRaw(ArrowSerializableDataclass):  # a server that fills the nested IPC payload fields with its own bytes
+    n: int
+    mode: Mode
+    layout: bytes
+    sample: bytes
+
+
+def _ipc_stream(batches: list) -> bytes:
+    sink = io.BytesIO()
+    with ipc.new_stream(sink, _OUT) as w:
+        for b in batches:
+            w.write_batch(b)
+    return sink.getvalue()
+
+
+_LAYOUT_OK = _OUT.serialize().to_pybytes()
+_SAMPLE_OK = _ipc_stream([pa.record_batch({"v": [7]}, schema=_OUT)])
+_N_FIELD_DRIFT = 5  # _DRIFT[0 .. 4]: scalar / enum fields; _DRIFT[5 ..]: the nested IPC payload fields
+_DRIFT: tuple[tuple[str, Any], ...] = (
+    ("same revision as the client", HdrX(_TOTAL, Mode.A, _OUT, pa.record_batch({"v": [7]}, schema=_OUT))),
+    ("a field the client does not know, optional fields absent", _HdrRegion(_TOTAL, Mode.B, "eu")),
+    ("a field the client requires is absent", _HdrNoMode(_TOTAL)),
+    ("an Enum member the client does not know", _HdrNextMode(_TOTAL, _ModeNext.C)),
+    ("an int where the client expects an Enum name", _HdrModeInt(_TOTAL, 3)),
+    ("nested payloads as bytes, both well formed", _HdrRaw(_TOTAL, Mode.A, _LAYOUT_OK, _SAMPLE_OK)),
+    ("schema field holds bytes that are no IPC schema message", _HdrRaw(_TOTAL, Mode.A, b"v:int64", _SAMPLE_OK)),
+    ("batch field holds an IPC stream cut short", _HdrRaw(_TOTAL, Mode.A, _LAYOUT_OK, _SAMPLE_OK[: len(_SAMPLE_OK) - 24])),
+    ("batch field holds an IPC stream without a batch", _HdrRaw(_TOTAL, Mode.A, _LAYOUT_OK, _ipc_stream([]))),
+)
 
 _BAD_NAME = {0: "column v: string", 1: "column w instead of v", 2: "column v: int64 not null"}
 
@@ -233,6 +321,8 @@ class Svc(Protocol):
     def prod(self, n: int) -> Stream[ProdState]: ...
     def prod_h(self, n: int) -> Stream[ProdState, Hdr]: ...
     def exch(self, n: int) -> Stream[ExchState]: ...
+    def prod_hx(self, n: int) -> Stream[ProdState, HdrX]: ...
+    def exch_hx(self, n: int) -> Stream[ExchState, HdrX]: ...
 
 
 class Impl:
@@ -282,6 +372,13 @@ class Impl:
         if hit:
             return v
         return Stream(output_schema=_OUT, state=ExchState(), input_schema=_OUT)
+
+    # the stream itself is healthy; only the header is built from the revision the script names
+    def prod_hx(self, n: int, ctx: Any = None) -> Any:
+        return Stream(output_schema=_OUT, state=ProdState(n), header=_DRIFT[S.script.drift if S.armed else 0][1])
+
+    def exch_hx(self, n: int, ctx: Any = None) -> Any:
+        return Stream(output_schema=_OUT, state=ExchState(), input_schema=_OUT, header=_DRIFT[S.script.drift if S.armed else 0][1])
 
 
 _METHODS = rpc_methods(Svc)
@@ -337,7 +434,7 @@ def _drive_session(session: Any, sc: Script, seen: dict) -> None:
                         raise
                     seen["swallowed"] = type(e).__name__
                     continue
-            elif sc.shape == EXCH:
+            elif sc.shape in _EXCHANGES:
                 session.exchange(AnnotatedBatch.from_pydict({"v": [j]}, schema=_OUT))
             else:
                 session.tick()
@@ -580,7 +677,7 @@ def _untraced() -> Any:
 def _run(sc: Script) -> str:
     """Run the script on one in-memory connection.  '' = property holds, else what broke."""
     with _untraced():
-        for v in (sc.shape, sc.kind, sc.pos, sc.ret, sc.k, sc.cancel, sc.second_is_stream, sc.log_at, sc.log_sticky, sc.bad_at, sc.bad_kind, sc.bad_retry):
+        for v in (sc.shape, sc.kind, sc.pos, sc.ret, sc.k, sc.cancel, sc.second_is_stream, sc.log_at, sc.log_sticky, sc.bad_at, sc.bad_kind, sc.bad_retry, sc.drift):
             if type(v) is not int and type(v) is not bool:  # (real type() here: tracing is off)
                 raise TypeError("script must be concrete below the case split")
         return _run_concrete(sc)
@@ -893,3 +990,46 @@ def exchange_input_batch_refused(bad_at: int, bad_kind: int, retry: bool, k: int
     """
     a = {"bad_at": _conc(bad_at, 1, _K), "bad_kind": _conc(bad_kind, 0, 2), "retry": _concb(retry), "k": _conc(k, 1, _K), "cancel": _concb(cancel), "second_is_stream": _concb(second_is_stream)}
     return _run(_sc_badinput(a)) == ""
+
+
+_HX_SHAPES = (PROD_HX, EXCH_HX)
+_KH = pick(2, _K)  # (after a header the client refuses no session exists: k only matters where the header is accepted)
+
+
+def _sc_drift(a: dict, base: int) -> Script:
+    return Script(_HX_SHAPES[a["shape"]], NONE, 0, 0, a["k"], bool(a["cancel"]), bool(a["second_is_stream"]), drift=base + a["drift"])
+
+
+def _drift_slug(i: int) -> str:
+    return _DRIFT[i][0].replace(",", "").replace(" ", "-")
+
+
+@cond(q=90, t=300, encoded=[wire._read_stream_header, wire._read_header_batch, cli._RpcProxy._make_stream_caller, ArrowSerializableDataclass.deserialize_from_batch.__func__, srv.RpcServer._serve_stream],
+      bound="header-declaring {producer, exchange} stream whose header reaches the client intact but was built from another revision of the "
+            "header dataclass {same | unknown extra field | required field absent | unknown Enum member | int for an Enum}: whether the real "
+            "client accepts it or fails the call, x client 0..%d ticks/exchanges x {close, cancel} x 2 follow-ups" % _KH,
+      replay=lambda a: _real(_sc_drift(a, 0)), signature=lambda a, c: _sig("C04:header-client-cannot-decode:" + _drift_slug(a["drift"])))
+def stream_header_field_drift(shape: int, drift: int, k: int, cancel: bool, second_is_stream: bool) -> bool:
+    """
+    pre: 0 <= shape <= 1 and 0 <= drift < _N_FIELD_DRIFT and 0 <= k <= _KH
+    post: _
+    """
+    a = {"shape": _conc(shape, 0, 1), "drift": _conc(drift, 0, _N_FIELD_DRIFT - 1), "k": _conc(k, 0, _KH), "cancel": _concb(cancel), "second_is_stream": _concb(second_is_stream)}
+    return _run(_sc_drift(a, 0)) == ""
+
+
+_N_PAYLOAD_DRIFT = len(_DRIFT) - _N_FIELD_DRIFT
+
+
+@cond(q=90, t=300, encoded=[wire._read_stream_header, wire._read_header_batch, cli._RpcProxy._make_stream_caller, ArrowSerializableDataclass._convert_value_for_deserialization.__func__, srv.RpcServer._serve_stream],
+      bound="header-declaring {producer, exchange} stream whose header reaches the client intact and carries its nested IPC payload fields "
+            "(pa.Schema, pa.RecordBatch) as bytes {both well formed | no schema message | batch stream cut short | batch stream without a batch} "
+            "x client 0..%d ticks/exchanges x {close, cancel} x 2 follow-ups" % _KH,
+      replay=lambda a: _real(_sc_drift(a, _N_FIELD_DRIFT)), signature=lambda a, c: _sig("C04:header-client-cannot-decode:" + _drift_slug(_N_FIELD_DRIFT + a["drift"])))
+def stream_header_nested_payload_drift(shape: int, drift: int, k: int, cancel: bool, second_is_stream: bool) -> bool:
+    """
+    pre: 0 <= shape <= 1 and 0 <= drift < _N_PAYLOAD_DRIFT and 0 <= k <= _KH
+    post: _
+    """
+    a = {"shape": _conc(shape, 0, 1), "drift": _conc(drift, 0, _N_PAYLOAD_DRIFT - 1), "k": _conc(k, 0, _KH), "cancel": _concb(cancel), "second_is_stream": _concb(second_is_stream)}
+    return _run(_sc_drift(a, _N_FIELD_DRIFT)) == ""
